@@ -30,6 +30,7 @@ func checkC02(p *core.Program, r *core.Report) {
 		"O2.6": "Define: AssertIsEqual(batch result, post-root) on every path; operands are distinct circuit fields",
 		"O2.7": "depth guard (depth > 31 ⇒ error) dominates every API / gadget call of Define",
 		"O2.8": "no NewHint/Commit/Defer and no API handed to code outside the repository in definition code",
+		"O2.9": "completeness: every constraint-introducing API/gadget call of Define, the batch, round, Merkle and step definitions is a subterm of the definition's result or of an assert evaluated by O2.3 / accounted by O2.6, O1.6 or the input-hash binding (C03)",
 		"O1.6": "Merkle gadget (shared with C01): fold over levels with the two orderings of {running, sibling} selected by a boolean bit",
 	} {
 		r.Rule(id, t)
@@ -249,6 +250,19 @@ func checkC02(p *core.Program, r *core.Report) {
 	r.Check(mr.dirBoolInStep || (okW && bits != nil), "O1.6", mr.Step.Name+".DefineGadget: direction bit is boolean", p.Pos(mr.Step.Fn.Pos()),
 		"asserted/selected in the step or api.ToBinary output", "the direction bit is neither constrained boolean in the step nor an api.ToBinary output")
 
+	// O2.9: nothing restricts the witness beyond the asserts of the truth table and the input-hash binding
+	var stepBool []tf.Event
+	for _, e := range mr.Step.Events {
+		if isApi(e.Term, "AssertIsBoolean") && len(e.Term.Args) == 1 && tf.Eq(e.Term.Args[0], tf.Field(mr.Step.Ev.Params[0], mr.Dir)) {
+			stepBool = append(stepBool, e)
+		}
+	}
+	checkNoExtraConstraints(p, r, "O2.9", []*gadgetInfo{br.Circuit, br.Batch, rd, mr.G, mr.Step}, map[*gadgetInfo][]tf.Event{
+		br.Circuit: append([]tf.Event{br.Final}, publicAsserts(br.Circuit, br.T)...),
+		rd:         asserts,
+		mr.Step:    stepBool,
+	})
+	r.Floor("constraint-introducing calls accounted", 10)
 	// O2.7 depth guard
 	checkDepthGuard(p, r, br)
 	// O2.8
